@@ -91,7 +91,7 @@ def gen_module(seed, nfun):
         ret = rnd.choice(RETT)
         if ret in ('int *', 'char *', 'void *', 'struct pt *') and ret not in args:
             args.append(ret)
-        while platform_libffi_bug(args):
+        while platform_libffi_bug(args, ret):
             args.remove('struct pt')
         funcs.append({'name': 'f%d' % i, 'args': args, 'ret': ret})
     for tag in sorted(ARR):
@@ -104,7 +104,7 @@ def gen_module(seed, nfun):
     return funcs
 
 
-def platform_libffi_bug(args):
+def platform_libffi_bug(args, ret=None):
     """The system libffi (3.4.4, also through ctypes) copies the whole 16 bytes of a
     mixed INTEGER+SSE struct to the slot of its first eightbyte; when that slot is
     the 6th (last) general register the copy runs over into the slot of xmm0, so
@@ -113,6 +113,8 @@ def platform_libffi_bug(args):
     f(void*, long, struct pd, double x, int, struct pt p) receives x == p.c.
     Not cffi code: such signatures are not generated."""
     gpr, sse = 0, 0
+    if ret == 'struct big':
+        gpr = 1                     # MEMORY-class result: the hidden result pointer takes rdi
     for a in args:
         if a in ('float', 'double'):
             sse += 1 if sse < 8 else 0
